@@ -49,6 +49,10 @@ func checkRuntimeView(e *executor, r *stepResult) *vfkit.Violation {
 		return viol(P, "at most one update per container in a reply", "duplicate-update", "%s: %v", r.Desc, r.DupTargets)
 	}
 	cch := e.h.m.cache
+	pendingIDs := map[string]bool{}
+	for _, pc := range cch.GetPendingContainers() {
+		pendingIDs[pc.GetID()] = true
+	}
 	for _, c := range e.m.live() {
 		cc, ok := cch.LookupContainer(c.ID)
 		if !ok {
@@ -82,7 +86,11 @@ func checkRuntimeView(e *executor, r *stepResult) *vfkit.Violation {
 					// the cache was set to the empty string, which NRI cannot convey
 					sig = "cache-emptied-but-runtime-keeps:" + f.name
 				}
-				if r.Err != nil || r.CfgError != nil || e.failedPending {
+				if (r.Err != nil || r.CfgError != nil || e.failedPending) && !pendingIDs[c.ID] {
+					// what a failed request could not deliver must at least stay queued
+					// for the next reply; a difference without a pending mark is lost
+					sig += ":undelivered-and-not-pending"
+				} else if r.Err != nil || r.CfgError != nil || e.failedPending {
 					sig += ":after-failed-request:" + e.cfg.policyName() + ":" + e.failedKind(c.ID)
 					if os.Getenv("VERIF_DEBUG_CLASSES") != "" {
 						fmt.Fprintf(os.Stderr, "CLASS %s %s %s\n", sig, e.cfg.policyName(), e.failedKind(c.ID))
